@@ -38,24 +38,42 @@ Definition det3 (Q : arr R) : R :=
 
 (* an SO3 matrix has determinant one (so the record does describe proper rotations) *)
 Lemma SO3_det Q : SO3 Q -> det3 Q = 1.
-Proof. intros [H00 H11 H22 H01 H02 H12 C0 C1 C2 C3 C4 C5 C6 C7 C8]. unfold det3. nsatz. Qed.
+Proof.
+  intros [H00 H11 H22 H01 H02 H12 C0 C1 C2 C3 C4 C5 C6 C7 C8]. unfold det3.
+  (* det = first column of Q dotted with first column of cof Q = |column 0|^2 *)
+  replace (Q 0%nat * (Q 4%nat * Q 8%nat - Q 5%nat * Q 7%nat) - Q 1%nat * (Q 3%nat * Q 8%nat - Q 5%nat * Q 6%nat)
+           + Q 2%nat * (Q 3%nat * Q 7%nat - Q 4%nat * Q 6%nat))
+    with (Q 0%nat * (Q 4%nat * Q 8%nat - Q 5%nat * Q 7%nat) + Q 3%nat * (Q 2%nat * Q 7%nat - Q 1%nat * Q 8%nat)
+          + Q 6%nat * (Q 1%nat * Q 5%nat - Q 2%nat * Q 4%nat)) by ring.
+  rewrite C0, C3, C6. exact H00.
+Qed.
 
 Ltac flat := cbv [spec_invariant spec_invariants spec_schmid spec_rate spec_spin spec_gamma0 frob sym2 skw2 e2
                   mm tp conj row dot mvec cross vnth sys_l sys_n mk_arr List.nth Nat.add Nat.mul eps15].
 
 (* ---- slip invariants are frame invariant (uses only Q^T Q = I) --------------------------- *)
-Lemma invariant_frame (Q A D : arr R) s : SO3 Q -> (s < 4)%nat ->
-  @spec_invariant NumR (conj Q D) (mm A (tp Q)) s = @spec_invariant NumR D A s.
-Proof.
-  intros [H00 H11 H22 H01 H02 H12 _ _ _ _ _ _ _ _ _] Hs.
-  destruct s as [|[|[|[|s]]]]; try lia; flat; numR; nsatz.
-Qed.
+Ltac inv_frame_tac :=
+  intros [H00 H11 H22 H01 H02 H12 _ _ _ _ _ _ _ _ _]; flat; numR; nsatz.
+
+Lemma invariant_frame0 (Q A D : arr R) : SO3 Q ->
+  @spec_invariant NumR (conj Q D) (mm A (tp Q)) 0 = @spec_invariant NumR D A 0.
+Proof. inv_frame_tac. Qed.
+Lemma invariant_frame1 (Q A D : arr R) : SO3 Q ->
+  @spec_invariant NumR (conj Q D) (mm A (tp Q)) 1 = @spec_invariant NumR D A 1.
+Proof. inv_frame_tac. Qed.
+Lemma invariant_frame2 (Q A D : arr R) : SO3 Q ->
+  @spec_invariant NumR (conj Q D) (mm A (tp Q)) 2 = @spec_invariant NumR D A 2.
+Proof. inv_frame_tac. Qed.
+Lemma invariant_frame3 (Q A D : arr R) : SO3 Q ->
+  @spec_invariant NumR (conj Q D) (mm A (tp Q)) 3 = @spec_invariant NumR D A 3.
+Proof. inv_frame_tac. Qed.
 
 Lemma invariants_frame (Q A D : arr R) : SO3 Q ->
   @spec_invariants NumR (conj Q D) (mm A (tp Q)) = @spec_invariants NumR D A.
 Proof.
   intros HQ. unfold spec_invariants.
-  rewrite !(invariant_frame Q A D) by (exact HQ || lia). reflexivity.
+  rewrite (invariant_frame0 Q A D HQ), (invariant_frame1 Q A D HQ), (invariant_frame2 Q A D HQ),
+          (invariant_frame3 Q A D HQ). reflexivity.
 Qed.
 
 (* ---- Schmid tensor co-rotates: G(A Q^T) = Q G(A) Q^T (no orthogonality needed) ------------ *)
@@ -63,4 +81,135 @@ Lemma schmid_frame (Q A : arr R) (b : arr R) k : (k < 9)%nat ->
   @spec_schmid NumR (mm A (tp Q)) b k = conj Q (@spec_schmid NumR A b) k.
 Proof.
   intros Hk. do 9 (destruct k as [|k]; [flat; numR; ring|]). lia.
+Qed.
+
+(* ---- the least-squares slip rate is frame invariant ---------------------------------------- *)
+Definition F4 (G L : arr R) : R :=
+  let s (M : arr R) i j := M (3*i+j)%nat + M (3*j+i)%nat in
+  let t i j := s G i j * s L i j in
+  t 0%nat 0%nat + t 0%nat 1%nat + t 0%nat 2%nat + t 1%nat 0%nat + t 1%nat 1%nat + t 1%nat 2%nat
+  + t 2%nat 0%nat + t 2%nat 1%nat + t 2%nat 2%nat.
+Lemma frob_F4 (G L : arr R) : @frob NumR (@sym2 NumR G) (@sym2 NumR L) = F4 G L / 4.
+Proof. unfold F4. flat. numR. field. Qed.
+Lemma F4_frame (Q G L : arr R) : SO3 Q -> F4 (conj Q G) (conj Q L) = F4 G L.
+Proof.
+  intros [H00 H11 H22 H01 H02 H12 _ _ _ _ _ _ _ _ _]. unfold F4. flat. numR. nsatz.
+Qed.
+
+Lemma gamma0_ext (G1 G2 L : arr R) : (forall k, (k < 9)%nat -> G1 k = G2 k) ->
+  @spec_gamma0 NumR G1 L = @spec_gamma0 NumR G2 L.
+Proof.
+  intros H. cbv [spec_gamma0 frob sym2 e2 Nat.add Nat.mul].
+  rewrite !(H 0%nat), !(H 1%nat), !(H 2%nat), !(H 3%nat), !(H 4%nat), !(H 5%nat), !(H 6%nat), !(H 7%nat),
+          !(H 8%nat) by lia. reflexivity.
+Qed.
+
+Lemma gamma0_frame (Q G L : arr R) : SO3 Q ->
+  @spec_gamma0 NumR (conj Q G) (conj Q L) = @spec_gamma0 NumR G L.
+Proof.
+  intros HQ. unfold spec_gamma0. rewrite !frob_F4, !(F4_frame Q _ _ HQ). reflexivity.
+Qed.
+
+(* ---- spin and orientation rate co-rotate (this is where det Q = 1 enters) ------------------- *)
+Definition qv (Q : arr R) (v : R * R * R) : R * R * R :=
+  let '(x, y, z) := v in
+  (Q 0%nat * x + Q 1%nat * y + Q 2%nat * z, Q 3%nat * x + Q 4%nat * y + Q 5%nat * z,
+   Q 6%nat * x + Q 7%nat * y + Q 8%nat * z).
+Definition cofv (Q : arr R) (v : R * R * R) : R * R * R :=
+  let '(x, y, z) := v in
+  ((Q 4%nat * Q 8%nat - Q 5%nat * Q 7%nat) * x + (Q 5%nat * Q 6%nat - Q 3%nat * Q 8%nat) * y + (Q 3%nat * Q 7%nat - Q 4%nat * Q 6%nat) * z,
+   (Q 2%nat * Q 7%nat - Q 1%nat * Q 8%nat) * x + (Q 0%nat * Q 8%nat - Q 2%nat * Q 6%nat) * y + (Q 1%nat * Q 6%nat - Q 0%nat * Q 7%nat) * z,
+   (Q 1%nat * Q 5%nat - Q 2%nat * Q 4%nat) * x + (Q 2%nat * Q 3%nat - Q 0%nat * Q 5%nat) * y + (Q 0%nat * Q 4%nat - Q 1%nat * Q 3%nat) * z).
+
+Lemma cofv_SO3 Q v : SO3 Q -> cofv Q v = qv Q v.
+Proof.
+  intros [_ _ _ _ _ _ C0 C1 C2 C3 C4 C5 C6 C7 C8]. destruct v as [[x y] z]. unfold cofv, qv.
+  rewrite C0, C1, C2, C3, C4, C5, C6, C7, C8. reflexivity.
+Qed.
+
+Lemma cross_Q (Q : arr R) u v : @cross NumR (qv Q u) (qv Q v) = cofv Q (@cross NumR u v).
+Proof.
+  destruct u as [[u0 u1] u2], v as [[v0 v1] v2]. unfold cross, qv, cofv. numR.
+  f_equal; [f_equal|]; ring.
+Qed.
+
+Lemma row_AQt (Q A : arr R) i : (i < 3)%nat -> @row NumR (mm A (tp Q)) i = qv Q (@row NumR A i).
+Proof.
+  intros Hi. destruct i as [|[|[|i]]]; try lia; cbv [row mm tp qv mk_arr List.nth Nat.add Nat.mul]; numR;
+  (f_equal; [f_equal|]); ring.
+Qed.
+
+(* axial(skew(Q M Q^T)) = cof(Q) axial(skew M) for EVERY matrix Q *)
+Lemma spin_frame (Q G L : arr R) g :
+  @spec_spin NumR (conj Q G) (conj Q L) g = cofv Q (@spec_spin NumR G L g).
+Proof.
+  cbv [spec_spin skw2 e2 conj mm tp cofv mk_arr List.nth Nat.add Nat.mul]. numR.
+  f_equal; [f_equal|]; field.
+Qed.
+
+Lemma spin_ext (G1 G2 L : arr R) g : (forall k, (k < 9)%nat -> G1 k = G2 k) ->
+  @spec_spin NumR G1 L g = @spec_spin NumR G2 L g.
+Proof.
+  intros H. cbv [spec_spin skw2 e2 Nat.add Nat.mul].
+  rewrite !(H 1%nat), !(H 2%nat), !(H 3%nat), !(H 5%nat), !(H 6%nat), !(H 7%nat) by lia. reflexivity.
+Qed.
+
+Definition vnth3 (v : R * R * R) (i : nat) : R :=
+  let '(a, b, c) := v in match i with 0%nat => a | 1%nat => b | _ => c end.
+
+(* rows of the rate: (dA/dt)' = (dA/dt) Q^T, i.e. row_i' = Q row_i *)
+Lemma rate_frame (Q A G G' L : arr R) g : SO3 Q ->
+  (forall k, (k < 9)%nat -> G' k = conj Q G k) ->
+  forall k, (k < 9)%nat ->
+  @spec_rate NumR (mm A (tp Q)) G' (conj Q L) g k = mm (@spec_rate NumR A G L g) (tp Q) k.
+Proof.
+  intros HQ HG k Hk.
+  assert (Hrow : forall i, (i < 3)%nat ->
+            @cross NumR (@spec_spin NumR G' (conj Q L) g) (@row NumR (mm A (tp Q)) i)
+            = qv Q (@cross NumR (@spec_spin NumR G L g) (@row NumR A i))).
+  { intros i Hi. rewrite (spin_ext G' (conj Q G) (conj Q L) g HG), spin_frame, row_AQt by exact Hi.
+    rewrite (cofv_SO3 Q _ HQ), cross_Q. apply cofv_SO3. exact HQ. }
+  unfold spec_rate. cbv zeta.
+  rewrite (Hrow 0%nat), (Hrow 1%nat), (Hrow 2%nat) by lia.
+  set (r0 := @cross NumR (@spec_spin NumR G L g) (@row NumR A 0)).
+  set (r1 := @cross NumR (@spec_spin NumR G L g) (@row NumR A 1)).
+  set (r2 := @cross NumR (@spec_spin NumR G L g) (@row NumR A 2)).
+  destruct r0 as [[a0 a1] a2], r1 as [[b0 b1] b2], r2 as [[c0' c1'] c2'].
+  do 9 (destruct k as [|k]; [cbv [vnth qv mm tp mk_arr List.nth Nat.add Nat.mul]; numR; ring|]). lia.
+Qed.
+
+(* ---- one grain: the published model is frame indifferent ------------------------------------ *)
+Definition frame_related (Q : arr R) (r r' : res (arr R * R)) : Prop :=
+  match r, r' with
+  | Ok (Ad, E), Ok (Ad', E') => E' = E /\ forall k, (k < 9)%nat -> Ad' k = mm Ad (tp Q) k
+  | Err e, Err e' => e = e'
+  | _, _ => False
+  end.
+
+Lemma zeros_frame (Q : arr R) k : (k < 9)%nat -> @zeros9s NumR k = mm (@zeros9s NumR) (tp Q) k.
+Proof.
+  intros Hk. do 9 (destruct k as [|k]; [cbv [zeros9s mm tp mk_arr List.nth Nat.add Nat.mul]; numR; ring|]). lia.
+Qed.
+
+Lemma gamma0_frame' (Q A L : arr R) (b : arr R) : SO3 Q ->
+  @spec_gamma0 NumR (@spec_schmid NumR (mm A (tp Q)) b) (conj Q L)
+  = @spec_gamma0 NumR (@spec_schmid NumR A b) L.
+Proof.
+  intros HQ. rewrite (gamma0_ext _ (conj Q (@spec_schmid NumR A b)) _ (fun k Hk => schmid_frame Q A b k Hk)).
+  apply gamma0_frame. exact HQ.
+Qed.
+
+Theorem spec_grain_frame ph fb (Q A D L : arr R) p n lam : SO3 Q ->
+  frame_related Q (@spec_grain NumR ph fb A D L p n lam)
+                  (@spec_grain NumR ph fb (mm A (tp Q)) (conj Q D) (conj Q L) p n lam).
+Proof.
+  intros HQ. unfold spec_grain. destruct (tau_table ph fb) as [tau|]; [|reflexivity].
+  rewrite (invariants_frame Q A D HQ). set (inv := @spec_invariants NumR D A).
+  destruct (all_zero4 inv); [split; [reflexivity|apply zeros_frame]|].
+  destruct (Z.eqb ph 0).
+  - destruct (all_zero4 (spec_activities tau inv)); [split; [reflexivity|apply zeros_frame]|].
+    cbv zeta. rewrite (gamma0_frame' Q A L _ HQ). split; [reflexivity|].
+    intros k Hk. apply rate_frame; [exact HQ | intros j Hj; apply schmid_frame; exact Hj | exact Hk].
+  - cbv zeta. rewrite (gamma0_frame' Q A L _ HQ). split; [reflexivity|].
+    intros k Hk. apply rate_frame; [exact HQ | intros j Hj; apply schmid_frame; exact Hj | exact Hk].
 Qed.
